@@ -202,7 +202,9 @@ def coverage(agg):
         'overlap_pairs_driver_only': sorted([list(p) for p in agg['pairs'] if not (p[0].startswith('_try_') or p[1].startswith('_try_')
                                                                                     or p[0].startswith('_parse_function') or p[1].startswith('_parse_function'))])[:60],
         'simulated_steps_total': agg['steps'],
-        'simulated_time_note': 'the only clock is the step counter (one step = one line event of the system under test)',
+        'simulated_time_note': 'the only clock is the step counter (one step = one line event of the system under test); the virtual clock that the '
+                               'system under test reads (simkit/clock.py) advances 1 us per step plus the injected clock jumps',
+        'simulated_virtual_seconds_without_jumps': round(agg['steps'] * 1e-6, 3),
         'operations_executed': agg['ops'],
         'operations_judged_against_isolated_reference': agg['judged'],
         'faults_fired_by_kind': {k: agg['counters'].get(k, 0) for k in
